@@ -43,7 +43,7 @@ AXES = {
     "V4name": ([[(0, 0, 7), (0, 7, 30), (0, 30, 33)], [(1, 0, 5)]], ["chrB", "z"]),
 }
 NAME_TOK = {"chrB": 0, "chrA": 1, "z": 2, "chr10": 3}
-COL_TOK = {"count": 0, "x": 1, "y": 2}
+COL_TOK = {"count": 0, "x": 1, "y": 2, "score": 3}
 TOK_COL = {v: k for k, v in COL_TOK.items()}
 AGG_COQ = {"sum": "ASum", "max": "AMax", "min": "AMin"}
 
@@ -66,8 +66,24 @@ def coq_names(ax):
     return C.zl([NAME_TOK[n] for n in AXES[ax][1]])
 
 
-def np_dtype(bits):
-    return {8: np.int8, 16: np.int16, 32: np.int32, 64: np.int64}[bits]
+_DT = {8: np.int8, 16: np.int16, 32: np.int32, 64: np.int64,
+       "u8": np.uint8, "u16": np.uint16, "u32": np.uint32, "u64": np.uint64, "f32": np.float32, "f64": np.float64}
+
+
+def np_dtype(tok):
+    """dtype token -> numpy dtype: an int N is the signed integer of N bits, 'uN' unsigned, 'fN' float"""
+    return _DT[tok]
+
+
+def tok_of(dt):
+    dt = np.dtype(dt)
+    if dt.kind == "i":
+        return dt.itemsize * 8
+    return f"{dt.kind}{dt.itemsize * 8}"
+
+
+def is_signed_int(tok):
+    return isinstance(tok, int)
 
 
 # ----------------------------------------------------------------- timeouts
@@ -112,13 +128,17 @@ def pixel_frame(px, cols):
     return pd.DataFrame(d)
 
 
-def write_cooler(path, ax, symm, cols, px):
-    """create an input cooler through the public API (ordered path); px must be free of duplicates"""
+def write_cooler(path, ax, symm, cols, px, bins_extra=False, mode="w"):
+    """create an input cooler through the public API (ordered path); px must be free of duplicates.
+    path may be a URI 'file::/group'; bins_extra adds a 'weight' column to the bin table"""
     import cooler
     df = pixel_frame(sorted(px), cols)
-    cooler.create_cooler(str(path), bins_df(ax), df, columns=[c for c, _ in cols],
+    bins = bins_df(ax)
+    if bins_extra:
+        bins["weight"] = np.linspace(0.5, 1.5, len(bins))
+    cooler.create_cooler(str(path), bins, df, columns=[c for c, _ in cols],
                          dtypes={c: np_dtype(b) for c, b in cols}, symmetric_upper=bool(symm),
-                         ordered=True)
+                         ordered=True, mode=mode)
 
 
 def read_raw(uri, want_cols=None):
@@ -138,17 +158,19 @@ def read_raw(uri, want_cols=None):
         cols = []
         for c in names:
             dt = pg[c].dtype
-            kind = "i" if dt.kind == "i" else dt.kind
-            cols.append([c, dt.itemsize * 8 if kind == "i" else f"{dt.kind}{dt.itemsize * 8}"])
-            colv.append([int(v) if kind in "iu" else float(v) for v in pg[c][:].tolist()])
+            cols.append([c, tok_of(dt)])
+            colv.append([int(v) if dt.kind in "iu" else float(v) for v in pg[c][:].tolist()])
         a = g.attrs
         # every row on disk is read (after fix D21 an empty pixel stream leaves no preallocated rows)
         nrows = len(b1)
         px = [[int(b1[i]), int(b2[i]), [cv[i] for cv in colv]] for i in range(nrows)]
         off = [int(v) for v in g["indexes/bin1_offset"][:].tolist()]
-        return {"cols": cols, "px": px, "off": off, "sum": int(a["sum"]), "nnz": int(a["nnz"]),
+        tot = a["sum"]
+        tot = int(tot) if np.issubdtype(np.asarray(tot).dtype, np.integer) else float(tot)
+        return {"cols": cols, "px": px, "off": off, "sum": tot, "nnz": int(a["nnz"]),
                 "symm": str(a["storage-mode"]) == "symmetric-upper", "nbins": int(a["nbins"]),
-                "bintype": str(a["bin-type"]), "rows_on_disk": len(b1)}
+                "bintype": str(a["bin-type"]), "rows_on_disk": len(b1),
+                "bins_cols": sorted(g["bins"].keys())}
 
 
 def coq_px(px):
